@@ -90,6 +90,20 @@ def gen_requests(rng, files, n):
         for o, m in (('http://a.example', 'PUT'), ('https://foo.example', 'GET')):
             add('options-same-origin', req('OPTIONS', paths[i % len(paths)], [('Host', 'localhost'), ('Origin', o),
                 ('Access-Control-Request-Method', m), ('Access-Control-Request-Headers', 'X-Token-%d, X-Other-%d' % (i, 97 - i))]))
+    # requests that leave a long, recognisable residue behind them (binary parts with NUL bytes followed by text that reads like
+    # form fields) and very short form posts that come after them: anything recycled between connections (a buffer, a parser
+    # state) shows up as fields of another connection in the echo of the short one
+    for i in range(6):
+        bd = 'R%d' % rng.below(10 ** 6)
+        tail = b'\x00\x01\x00' + b'&leak%d=SECRET-OF-CONNECTION-%d&' % (i, rng.below(10 ** 9)) * rng.range(5, 60) + b'\r\n--' + bd.encode() + \
+               b'\r\nContent-Disposition: form-data; name="leaked%d"\r\n\r\nvalue-of-another-connection-%d\r\n' % (i, rng.below(10 ** 9))
+        body = f'--{bd}\r\nContent-Disposition: form-data; name="file{i}"; filename="blob{i}.bin"\r\nContent-Type: application/octet-stream\r\n\r\n'.encode() + \
+               bytes(range(1, 40)) + tail + b'\r\n' + f'--{bd}--\r\n'.encode()
+        add('binary-upload-with-tail', req('POST', '/form-multipart-enctype-post-method', hdrs([('Content-Type', f'multipart/form-data; boundary={bd}')]), body), form=True)
+        add('short-form-post', req('POST', '/form-url-encoded-enctype-post-method', [('Content-Type', 'application/x-www-form-urlencoded')], b'n%d=%d' % (i, rng.below(100))), form=True)
+        sb = 'S%d' % rng.below(10 ** 6)
+        add('short-multipart-post', req('POST', '/form-multipart-enctype-post-method', [('Content-Type', f'multipart/form-data; boundary={sb}')],
+                                        f'--{sb}\r\nContent-Disposition: form-data; name="s{i}"\r\n\r\nv\r\n--{sb}--\r\n'.encode()), form=True)
     guard = 0
     forced = [0, 6, 8, 10, 12, 14, 16, 17, 18, 19] * 4       # at least four attempts of every request class
     while len(out) < n and guard < 20 * n:
